@@ -18,8 +18,12 @@ import numpy as np
 
 from harness.common import MachineryError
 
+NEAR_EPS = [0.0, 1e-12, 1e-10, 1e-8, 3e-8, 1e-7, 1e-6, 1e-4, 1e-3]      # relative differences of nearly equal grids
 WLS = [1.0, 1.000001, 0.5, 2.25, 0.75]          # relative distance >= 1e-6
 SENTINEL = '__unset__'
+# elements that also work on unstructured (rotated), reversed and separated grids
+ANY_GRID = ('Apodizer', 'PhaseApodizer', 'SurfaceApodizer', 'Magnifier', 'JonesMatrixOpticalElement', 'PhaseRetarder',
+            'LinearRetarder', 'LinearPolarizer', 'TiltElement')
 
 
 def wl_key(wl):
@@ -31,7 +35,7 @@ def wl_key(wl):
 
 class Spec:
     def __init__(self, name, build, values, fwd, bwd, grid_dep=True, post=(), pol=(0,), dtypes=('complex128',),
-                 skip=None, lens=False, both=True, proto=False, exclusive_post=False, wl_dep=True):
+                 skip=None, lens=False, both=True, proto=False, exclusive_post=False, wl_dep=True, any_grid=False):
         self.name = name
         self.build = build            # dict name -> value  ->  element
         self.values = values          # name -> list of candidate values (index 0 = constructed with)
@@ -39,6 +43,7 @@ class Spec:
         self.bwd = bwd                # grids for backward requests
         self.grid_dep = grid_dep      # declared dependencies (used when the private flags cannot be read)
         self.wl_dep = wl_dep
+        self.any_grid = any_grid      # works on unstructured / reversed / separated grids too
         self.post = set(post)         # setter names that are not constructor arguments
         self.pol = pol                # allowed polarisation states of the test wavefronts
         self.dtypes = dtypes
@@ -218,6 +223,11 @@ def specs():
     S.append(Spec('VectorVortexCoronagraph',
                   lambda v: hp.VectorVortexCoronagraph(2, None, v['phase_retardation'], q=8, scaling_factor=4, window_size=8),
                   {'phase_retardation': [np.pi]}, [P[0], P[1], P[3], P[4]], [P[0], P[1], P[3], P[4]], pol=(0, 1, 2)))
+    for sp in S:
+        if sp.name.split('-')[0] in ANY_GRID:
+            sp.any_grid = True
+        if [id(g) for g in sp.fwd] != [id(g) for g in sp.bwd]:
+            raise MachineryError('forward and backward pools of %s differ' % sp.name)
     _SPECS = S
     return S
 
@@ -327,6 +337,22 @@ def compare_instances(a, b, grid_dep):
     return None
 
 
+def near_grid(g, kind, eps):
+    """A grid that differs from the regular grid `g` by a relative `eps` in its spacing ('delta'), its
+    origin ('zero') or one single coordinate ('coord', separated coordinates); eps = 0: an equal copy."""
+    import hcipy as hp
+    ext = float(np.max(np.abs(np.asarray(g.delta) * np.asarray(g.dims))))
+    if kind == 'delta':
+        return g.scaled(1.0 + eps)
+    if kind == 'zero':
+        return g.shifted(np.array([eps * ext, 0.0]))
+    if kind == 'coord':
+        sc = [np.array(c, dtype=float).copy() for c in g.separated_coords]
+        sc[0][1] += eps * ext
+        return hp.CartesianGrid(hp.SeparatedCoords(sc))
+    raise MachineryError('unknown near-grid kind %r' % (kind,))
+
+
 class Hist:
     """Executes a case on the real code; collects oracle failures and the model conversation."""
 
@@ -334,6 +360,10 @@ class Hist:
         self.spec = spec
         self.case = case
         self.params = {n: 0 for n in spec.values}
+        # private copies of the grids: histories may mutate them in place
+        self.pool = [g.copy() for g in spec.fwd]
+        for base, kind, eps in case.get('near', []):
+            self.pool.append(near_grid(spec.fwd[int(base)], kind, float(eps)))
         self.state_issues = []   # internal state that could not be read / interpreted (broken correspondence)
         self.bad = []            # (key, what, step)
         self.elem = None
@@ -509,6 +539,31 @@ class Hist:
                 self.lines.append('C05 clear')
                 self.expect.append(dict(status='ok', **self.real_state()))
                 continue
+            if kind == 'mut':
+                # the caller changes a grid object in place (directly or through a wavefront that lives on it)
+                grid = self.pool[int(op[1])]
+                how, arg, via = op[2], op[3], bool(op[4])
+                target = make_wavefront(grid, WLS[0], 'complex128', 0, 1).electric_field.grid if via else grid
+                if via and target is not grid:
+                    self.count('mut:wavefront-holds-a-copy')
+                try:
+                    if how == 'scale':
+                        target.scale(float(arg))
+                    elif how == 'shift':
+                        target.shift(np.array([float(arg[0]), float(arg[1])]))
+                    elif how == 'rotate':
+                        target.rotate(float(arg))
+                    elif how == 'reverse':
+                        target.reverse()
+                    else:
+                        raise MachineryError('unknown in-place operation %r' % (how,))
+                except MachineryError:
+                    raise
+                except Exception as e:
+                    self.raises(e, 'in-place %s of grid #%s' % (how, op[1]), step)
+                    return
+                self.count('mut:' + how + ('-via-wavefront' if via else ''))
+                continue
             if kind == 'set':
                 name, idx = op[1], int(op[2])
                 self.params[name] = idx
@@ -533,7 +588,7 @@ class Hist:
             n0 = len(self.handed)
             if kind in ('fwd', 'bwd'):
                 g, w, dt, pol, seed = int(op[1]), int(op[2]), op[3], int(op[4]), int(op[5])
-                grid = (spec.fwd if kind == 'fwd' else spec.bwd)[g]
+                grid = self.pool[g]
                 wl = WLS[w]
                 line = self.request_line(grid if kind == 'fwd' else None, grid if kind == 'bwd' else None, wl, fresh2)
                 wf1 = make_wavefront(grid, wl, dt, pol, seed)
@@ -564,7 +619,7 @@ class Hist:
                 if d:
                     return
             elif kind == 'both':
-                gi, go, w = spec.fwd[int(op[1])], spec.bwd[int(op[2])], int(op[3])
+                gi, go, w = self.pool[int(op[1])], self.pool[int(op[2])], int(op[3])
                 wl = WLS[w]
                 line = self.request_line(gi, go, wl, fresh2)
                 v1 = e1 = v2 = e2 = None
@@ -642,10 +697,21 @@ def gen_case(rng, spec, el_setters, big):
     nw = int(rng.integers(1, 4))
     wsel = [int(x) for x in rng.choice(len(WLS), size=nw, replace=False)]
     maxN = [None, 1, 2, 3, 4][int(rng.choice(5, p=[0.3, 0.15, 0.25, 0.2, 0.1]))]
-    style = str(rng.choice(['mixed', 'overflow', 'alternate', 'setters', 'both']))
+    style = str(rng.choice(['mixed', 'overflow', 'alternate', 'setters', 'both', 'mutate', 'near']))
     n = int(rng.integers(8, 28 if not big else 60))
     ops = []
     post_used = False
+    near = []
+    if style in ('near', 'mutate'):
+        # a family of grids nearly equal (or, eps = 0, equal) to one base grid, used through the same element
+        base = fsel[0]
+        kinds = ['delta', 'zero'] + (['coord'] if (spec.any_grid or spec.lens) else [])
+        for _ in range(int(rng.integers(2, 6)) if style == 'near' else 1):
+            eps = NEAR_EPS[int(rng.integers(0, len(NEAR_EPS)))] if style == 'near' else 0.0
+            near.append([base, str(rng.choice(kinds)) if eps else 'delta', eps])
+        extra = [len(spec.fwd) + k for k in range(len(near))]
+        fsel = [base] + extra + fsel[1:2]
+        bsel = [base] + extra + bsel[:1]
     for _ in range(n):
         r = rng.random()
         dt = str(rng.choice(spec.dtypes))
@@ -653,7 +719,17 @@ def gen_case(rng, spec, el_setters, big):
         seed = int(rng.integers(0, 1 << 30))
         p_set = 0.25 if style == 'setters' else 0.07
         p_both = 0.3 if style == 'both' else 0.08
-        if el_setters and r < p_set:
+        p_mut = 0.2 if style == 'mutate' else (0.03 if style == 'mixed' else 0.0)
+        if rng.random() < p_mut:
+            hows = ['scale', 'shift'] + (['rotate', 'reverse'] if spec.any_grid else [])
+            how = str(rng.choice(hows))
+            arg = {'scale': float(rng.choice([2.0, 0.5, 1.5, 0.75])),
+                   'shift': [float(rng.integers(-4, 5)) / 8.0, float(rng.integers(-4, 5)) / 16.0],
+                   'rotate': float(rng.integers(1, 8)) / 8.0, 'reverse': None}[how]
+            # mostly a grid of the working set that is a pool grid (not a near variant)
+            cand = [g for g in fsel[:3] if g < len(spec.fwd)] or [fsel[0]]
+            ops.append(['mut', int(rng.choice(cand)), how, arg, int(rng.random() < 0.4)])
+        elif el_setters and r < p_set:
             pool = [x for x in el_setters if x in spec.post] if (post_used and spec.exclusive_post) else el_setters
             name = str(rng.choice(pool))
             post_used = post_used or name in spec.post
@@ -672,10 +748,11 @@ def gen_case(rng, spec, el_setters, big):
                 w = int(rng.choice(wsel))
             else:
                 # favour a small working set (two grids, one wavelength) so that hits are frequent
-                g = int(pool[int(rng.integers(0, min(2, len(pool))))]) if rng.random() < 0.7 else int(rng.choice(pool))
-                w = int(wsel[0]) if rng.random() < 0.7 else int(rng.choice(wsel))
+                k_work = len(near) + 2 if style in ('near', 'mutate') else 2
+                g = int(pool[int(rng.integers(0, min(k_work, len(pool))))]) if rng.random() < 0.7 else int(rng.choice(pool))
+                w = int(wsel[0]) if rng.random() < (0.9 if style in ('near', 'mutate') else 0.7) else int(rng.choice(wsel))
             ops.append(['bwd' if back else 'fwd', g, w, dt, int(pol), seed])
-    return {'spec': spec.name, 'maxN': maxN, 'style': style, 'ops': ops}
+    return {'spec': spec.name, 'maxN': maxN, 'style': style, 'near': near, 'ops': ops}
 
 
 def directed():
@@ -694,6 +771,28 @@ def directed():
     D.append({'spec': 'FraunhoferPropagator', 'maxN': None, 'style': 'directed', 'ops': [bw(F0), fw(F0), bw(1), fw(1), bw(F0)]})
     D.append({'spec': 'FraunhoferPropagator', 'maxN': 1, 'style': 'directed', 'ops': [bw(0), fw(0), fw(F1, 2), bw(F1, 2), bw(0)]})
     D.append({'spec': 'Magnifier', 'maxN': None, 'style': 'directed', 'ops': [fw(0), bw(0), bw(1), fw(1), ['set', 'magnification', 1], bw(0), fw(0)]})
+    # the caller mutates a grid object in place between requests (directly / through a wavefront's grid)
+    mut = lambda g, how, arg, via=0: ['mut', g, how, arg, via]      # noqa: E731
+    D.append({'spec': 'FraunhoferPropagator', 'maxN': None, 'style': 'directed',
+              'ops': [fw(0), mut(0, 'scale', 2.0), fw(0), bw(F0), mut(F0, 'shift', [0.25, 0.0]), bw(F0), fw(0), mut(0, 'scale', 0.5), fw(0)]})
+    D.append({'spec': 'FraunhoferPropagator', 'maxN': None, 'style': 'directed',
+              'ops': [fw(1), mut(1, 'shift', [0.125, -0.25], 1), fw(1), mut(1, 'scale', 1.5, 1), fw(1), bw(F1)]})
+    D.append({'spec': 'FresnelPropagator', 'maxN': None, 'style': 'directed', 'ops': [fw(0), mut(0, 'scale', 0.5), fw(0), bw(0), mut(0, 'shift', [0.5, 0.25], 1), bw(0)]})
+    D.append({'spec': 'Apodizer', 'maxN': None, 'style': 'directed',
+              'ops': [fw(0), mut(0, 'rotate', 0.5), fw(0), mut(0, 'reverse', None), fw(0), bw(0), mut(0, 'scale', 2.0, 1), bw(0)]})
+    # ... and then uses another grid object that has the value the mutated object had before
+    for name in ('FraunhoferPropagator', 'FresnelPropagator', 'Apodizer', 'StepIndexFiber', 'VectorVortexCoronagraph'):
+        N = len(spec_by_name(name).fwd)
+        D.append({'spec': name, 'maxN': None, 'style': 'directed', 'near': [[0, 'delta', 0.0]],
+                  'ops': [fw(0), mut(0, 'scale', 2.0), fw(N), fw(0), bw(N), mut(0, 'scale', 0.5), fw(0)]})
+    # families of nearly equal grids through one element
+    for name in ('FraunhoferPropagator', 'FresnelPropagator', 'Apodizer', 'Magnifier'):
+        N = len(spec_by_name(name).fwd)
+        fam = [[0, 'delta', 3e-8], [0, 'delta', 1e-12], [0, 'zero', 1e-7], [0, 'delta', 1e-3], [0, 'zero', 1e-10]]
+        if name in ('FraunhoferPropagator', 'Apodizer', 'Magnifier'):
+            fam.append([0, 'coord', 1e-6])
+        D.append({'spec': name, 'maxN': None, 'style': 'directed', 'near': fam,
+                  'ops': [fw(0)] + [fw(N + k) for k in range(len(fam))] + [bw(N), bw(0), fw(N + 1), fw(0)]})
     # default cache size overflow: 4 grids x 3 wavelengths = 12 > 11 instances
     ov = [fw(g, w) for w in range(3) for g in range(4)]
     D.append({'spec': 'Apodizer', 'maxN': None, 'style': 'directed', 'ops': ov + ov[:3] + [bw(0), bw(1, 2)]})
